@@ -102,6 +102,8 @@ MetaCells(i) ==
 KeyLits(kty) ==  \* three key literals with their canonical bytes for key type kty
   CASE kty = "u8"  -> << [l |-> "1", b |-> <<1>>], [l |-> "2", b |-> <<2>>], [l |-> "255", b |-> <<255>>] >>
     [] kty = "u16" -> << [l |-> "1", b |-> <<0, 1>>], [l |-> "2", b |-> <<0, 2>>], [l |-> "65535", b |-> <<255, 255>>] >>
+    \* decimal literals with leading zeros: 010 is ten, not eight
+    [] kty = "u16z" -> << [l |-> "010", b |-> <<0, 10>>], [l |-> "007", b |-> <<0, 7>>], [l |-> "65535", b |-> <<255, 255>>] >>
     [] kty = "u32" -> << [l |-> "1", b |-> <<0, 0, 0, 1>>], [l |-> "2", b |-> <<0, 0, 0, 2>>], [l |-> "4294967295", b |-> <<255, 255, 255, 255>>] >>
     \* the second key lies between 2^31 and 2^32: not an int literal of a language with 32-bit ints, and sign-extended by a careless widening
     [] kty = "u64" -> << [l |-> "1", b |-> <<0, 0, 0, 0, 0, 0, 0, 1>>], [l |-> "3000000000", b |-> <<0, 0, 0, 0, 178, 208, 94, 0>>],
@@ -119,6 +121,9 @@ Tables(kty) == LET K == KeyLits(kty) IN
    ckpayload |-> << Pair(<<K[1]>>, "CkPkt"), Pair(<<K[2]>>, "Zeta") >>]
 KeyField(i, kty) == IF kty = "string" THEN [F0 EXCEPT !.k = "dyn", !.name = Nm("key", i)]
                     ELSE IF kty = "char4" THEN [F0 EXCEPT !.k = "fix", !.name = Nm("key", i), !.n = 4]
+                    \* the default padding written out: it must win over a configured padding
+                    ELSE IF kty = "char4rsp" THEN [F0 EXCEPT !.k = "fix", !.name = Nm("key", i), !.n = 4, !.pad = "rsp"]
+                    ELSE IF kty = "u16z" THEN Sc(Nm("key", i), "u16")
                     ELSE Sc(Nm("key", i), kty)
 AuxOf(tbl) == {tbl[j].pkt : j \in 1..Len(tbl)} \cup (IF \E j \in 1..Len(tbl) : tbl[j].pkt = "WithObj" THEN {"Sub"} ELSE {})
                                              \cup (IF \E j \in 1..Len(tbl) : tbl[j].pkt = "Zeta" THEN {"A", "B"} ELSE {})
@@ -134,6 +139,9 @@ MatchCells(i) == { LET tbl == Tables(kty)[form] IN
                                                   [F0 EXCEPT !.k = "match", !.name = Nm("ba", i), !.key = Nm("ka", i), !.pairs = t1],
                                                   Sc(Nm("mid", i), "u8"),
                                                   [F0 EXCEPT !.k = "match", !.name = Nm("bb", i), !.key = Nm("kb", i), !.pairs = t2]>>, AuxOf(t1) \cup AuxOf(t2), FALSE) }
+                 \cup { LET tbl == Tables(kty)[form] IN
+                        Cell("match:" \o kty \o ":" \o form, <<KeyField(i, kty), MatchF(i, tbl)>>, AuxOf(tbl), FALSE) :
+                          kty \in {"u16z", "char4rsp"}, form \in {"two", "list"} }
                  \* the key field is typed by a MetaData entry
                  \cup { LET tbl == Tables("u32")[form] IN
                         Cell("match:metakey:" \o form, <<[F0 EXCEPT !.k = "meta", !.name = Nm("key", i), !.ty = "Qty"], MatchF(i, tbl)>>, AuxOf(tbl), TRUE) : form \in {"two", "list"} }
@@ -181,6 +189,10 @@ CkCells(i) ==
             <<Sc(Nm("pre", i), "u32"), [F0 EXCEPT !.k = "ck", !.name = Nm("cka", i), !.ty = "u16", !.alg = a1],
               Sc(Nm("mid", i), "u16"), [F0 EXCEPT !.k = "ck", !.name = Nm("ckb", i), !.ty = "u32", !.alg = a2]>>, {}, FALSE) :
          a1 \in {"REG", "NONE"}, a2 \in {"REG", "NONE"} }
+\cup { Cell("ck:inl:" \o a, <<Sc(Nm("pre", i), "u32"),
+                               [F0 EXCEPT !.k = "inl", !.name = Nm("Trailer", i),
+                                          !.fs = <<Sc("x", "u16"), [F0 EXCEPT !.k = "ck", !.name = "crc", !.ty = "u16", !.alg = a]>>],
+                               Sc(Nm("post", i), "u8")>>, {}, FALSE) : a \in {"VSUM16", "NONE"} }
 \cup { Cell("ck:notype", <<Sc(Nm("pre", i), "u32"), [F0 EXCEPT !.k = "ck", !.name = "CheckSum", !.ty = "u32", !.alg = "REG", !.pad = "notype"]>>, {}, TRUE) }
 \cup { Cell("ck:u16:followed", <<[F0 EXCEPT !.k = "ck", !.name = Nm("ck", i), !.ty = "u16", !.alg = "REG"], Sc(Nm("post", i), "u8")>>, {}, FALSE) }
 RegName(w) == CASE w = "u8" -> "VSUM8" [] w = "u16" -> "VSUM16" [] w = "u32" -> "VSUM32" [] OTHER -> "VSUM64"
